@@ -556,8 +556,13 @@ class CallMixin:
         ex = src.extra
         if ex is not None and ex[0] == "zip" and len(ex[1]) == 2:
             a, b = ex[1]
-            return (self.read_elem(a) if a.aliases() else Val(deps=a.deps),
-                    self.read_elem(b) if b.aliases() else Val(deps=b.deps, tags=b.tags & {"random"}))
+            if a.refs and not a.locs and all(self.obj(r).cls == "dict" for r in a.refs):
+                # iterating a dictionary yields its keys
+                ks = [self.obj(r).keys for r in a.refs if self.obj(r).keys is not None]
+                ka = join_all(ks).add_deps(a.deps) if ks else Val(deps=a.deps)
+            else:
+                ka = self.read_elem(a) if a.aliases() else Val(deps=a.deps)
+            return (ka, self.read_elem(b) if b.aliases() else Val(deps=b.deps, tags=b.tags & {"random"}))
         if ex is not None and ex[0] == "items":
             return ex[1], ex[2]
         if src.aliases():
